@@ -14,7 +14,7 @@ from .c01 import UNIVERSE
 ID = "C02"
 ATHERIS = True  # thorough tier: coverage-guided second engine over the same strategy/run_case
 LEVEL = "exploration"
-BUDGET = {"quick": 14000, "thorough": 1000000}
+BUDGET = {"quick": 14000, "thorough": 300000}
 RULE = (
     "case = hexary history (as C01, prune on/off, committed batches) plus a metamorphic "
     "part: one final mapping reached by a second, permuted history with extra keys "
